@@ -1,5 +1,6 @@
 import OsacaVerif.Model.LCD
 import OsacaVerif.Spec.Deps
+import OsacaVerif.Lemmas.Chain
 /-
   C04 — Critical path is the longest latency-weighted dependency chain.
 
@@ -61,5 +62,38 @@ theorem cp_no_deps (k : List Ins)
   simp only [hpos, if_true, List.mem_map, List.mem_filter] at hc
   obtain ⟨i, ⟨hi, _⟩, rfl⟩ := hc
   exact ⟨i, hi, rfl⟩
+
+/-! ### the oracle `Spec.longestChain` IS the maximum chain length (`Lemmas/Chain.lean`)
+
+  A chain (`Spec.Chain`) is a start line plus the list of edges followed; it is genuine
+  (`Chain.Valid infos es`) when it starts at an instruction, every edge belongs to `es` and leads to
+  an instruction, and consecutive edges are linked.  Its length (`Chain.len`) is what the property
+  says: `lat i` for a single instruction, `loadStage i₁ + Σ w + lat iₙ` otherwise.
+  Hypotheses: distinct line numbers, and `FwdIn infos es` — every edge between two instructions
+  points forward in the order of `infos` (decidable; implied by increasing lines and `src < dst`,
+  `fwdIn_of_sorted`). -/
+
+/-- **`longestChain_ge_chain`**: the dynamic programme dominates the length of EVERY genuine chain
+    (∀ instruction lists with distinct lines, ∀ forward edge lists, ∀ chains) -/
+theorem longestChain_ge_chain (infos : List LatInfo) (es : List WEdge)
+    (hnd : (infos.map (·.line)).Nodup) (hfwd : FwdIn infos es) (c : Chain) (hv : c.Valid infos es) :
+    c.len infos ≤ longestChain infos es :=
+  longestChain_ge infos es hnd hfwd c hv
+
+/-- **`longestChain_is_max`**: the value of the dynamic programme is attained by a genuine chain and
+    dominates all of them — it is the maximum chain length (0 for the empty kernel) -/
+theorem longestChain_is_max (infos : List LatInfo) (es : List WEdge)
+    (hnd : (infos.map (·.line)).Nodup) (hfwd : FwdIn infos es) (hne : infos ≠ []) :
+    (∃ c : Chain, c.Valid infos es ∧ c.len infos = longestChain infos es) ∧
+    (∀ c : Chain, c.Valid infos es → c.len infos ≤ longestChain infos es) :=
+  ⟨longestChain_attained infos es hnd hne, longestChain_ge infos es hnd hfwd⟩
+
+-- non-vacuity: the hypotheses hold of the witness' instruction table and edge list; the chain 1 → 2
+-- is genuine, has length loadStage 4 + weight 3 + latency 0 = 7, and attains the maximum
+example : ([⟨1, 7, 4⟩, ⟨2, 0, 0⟩] : List LatInfo).map (·.line) = [1, 2] ∧
+    FwdIn [⟨1, 7, 4⟩, ⟨2, 0, 0⟩] [⟨1, 2, 3⟩] := by decide +kernel
+example : (Chain.mk 1 [⟨1, 2, 3⟩]).Valid [⟨1, 7, 4⟩, ⟨2, 0, 0⟩] [⟨1, 2, 3⟩] ∧
+    (Chain.mk 1 [⟨1, 2, 3⟩]).len [⟨1, 7, 4⟩, ⟨2, 0, 0⟩] = 7 ∧
+    longestChain [⟨1, 7, 4⟩, ⟨2, 0, 0⟩] [⟨1, 2, 3⟩] = 7 := by decide +kernel
 
 end OsacaVerif.Props.C04
